@@ -559,6 +559,11 @@ def check_targeting(res, pm, domain, a, b, kind, ctx, fuse=20):
     if not has_edge(pm, e, a, b):
         report(res, 'C16:targeting-wrong-element', dict(returned=repr(e), **ctx))
         return False
+    return check_targeted(res, pm, domain, a, b, kind, ctx)
+
+
+def check_targeted(res, pm, domain, a, b, kind, ctx):
+    """the state a targeting call must leave (also: the mesh a *BoundaryRefined helper hands out)"""
     owners = [f for f in pm.mesh.leaf_elements if has_edge(pm, f, a, b)]
     if len(owners) != 1:
         report(res, 'C16:targeting-edge-owners', dict(owners=[repr(f) for f in owners], **ctx))
@@ -685,6 +690,62 @@ def search(res, tier, boost=False):
         ctx = dict(domain=domain, pre=pre, a=p, b=q, kind=kind, l=l, k=k)
         res.count(('search-bdr-pre', h, res.seed), True)
         check_targeting(res, pm, domain, p, q, kind, ctx)
+    helper_histories(res, rng, (30 if thorough else 9) * mult, 12 if thorough else 6)
+
+
+def helper_histories(res, rng, n_hist, n_req):
+    """4. the public helpers Unit/Pi/LShapeBoundaryRefined as a history of requests: the caller refines the mesh it was
+    handed (linform does not, a user may) and asks for the same or another segment again, end points in any container"""
+    im = _mod()
+    helpers = dict(unit=im.UnitSquareBoundaryRefined, lshape=im.LShapeBoundaryRefined, pi=im.PiSquareBoundaryRefined)
+    for h in range(n_hist):
+        domain = ['unit', 'lshape', 'pi'][h % 3]
+        pool = []
+        for _ in range(3):
+            piece = rng.choice(pieces(domain))
+            l = rng.randint(0, 5)
+            pool.append(segment(piece, l, rng.randrange(2**l), DOMAINS[domain]['scale']))
+        log = []
+        for r in range(n_req):
+            p, q = rng.choice(pool)
+            if rng.random() < 0.3:
+                p, q = q, p
+            kind = rng.choice(KINDS)
+            log.append(dict(request=[p, q], kind=kind))
+            ctx = dict(domain=domain, helper=helpers[domain].__name__, history=list(log))
+            signal.alarm(20)
+            try:
+                try:
+                    m = helpers[domain](fmt_pt(kind, *p), fmt_pt(kind, *q))
+                finally:
+                    signal.alarm(0)
+            except (Timeout, RecursionError):
+                report(res, 'C16:targeting-no-termination:helper', ctx)
+                break
+            except Exception as exc:  # noqa: BLE001
+                report(res, 'C16:targeting-raises:helper', dict(error=repr(exc)[:300], **ctx))
+                break
+            pm = PyQt(domain)
+            pm.mesh, pm.idx = m, {}
+            pm._index()
+            res.count(('search-helper', h, r, res.seed), r >= 1)
+            if not any(has_edge(pm, f, p, q) for f in m.leaf_elements):
+                report(res, 'C16:targeting-edge-owners:helper', dict(owners=[], **ctx))
+                break
+            if not check_targeted(res, pm, domain, p, q, kind, ctx):
+                break
+            # the caller goes on refining the mesh it was handed
+            refined = []
+            for _ in range(rng.randint(0, 3)):
+                leaves = list(m.leaf_elements)
+                own = [f for f in leaves if has_edge(pm, f, p, q)]
+                f = rng.choice(own if own and rng.random() < 0.6 else leaves)
+                if f.level >= level_cap(domain) - 1:
+                    continue
+                refined.append(pm.idx[id(f)])
+                m.refine(f)
+                pm._index()
+            log[-1]['then_refined_elements'] = refined
 
 
 def replay(res, rec):
